@@ -83,6 +83,9 @@ def run(ctx, prop):
         over, qmax, tmax = CONFIGS[name]
         consts = dict(BASE)
         consts.update(over)
+        if not (inline["didOpen"] and inline["didChange"] and inline["didClose"]) and consts["MaxMsgs"] > 3:
+            # spawned document handlers multiply the interleavings: keep the bounded model small enough to finish
+            consts["MaxMsgs"] = 3
         consts.update(InlineOpen=tla_bool(inline["didOpen"]), InlineChange=tla_bool(inline["didChange"]),
                       InlineClose=tla_bool(inline["didClose"]))
         cfgpath = ctx.workfile("LsSync_%s" % name)
@@ -103,7 +106,7 @@ def run(ctx, prop):
         cap = qmax if ctx.quick else tmax
         if cap is not None and len(good) > cap:
             good = rnd.sample(good, cap)
-        chosen = bad[:2000] + good
+        chosen = bad[:300] + good
         path = ctx.workfile("sched_%s.ndjson" % name)
         with open(path, "w") as f:
             for s in chosen:
